@@ -49,6 +49,11 @@ def configs(tier):
                     if entry in ('Gillespie_SIR', 'Gillespie_SIS') and I0 == [0]:
                         out.append(dict(c, weights='both', wstub='abstract', tags=c['tags'] + ['w:both']))
                     out.append(c)
+    # same draws, with and without return_full_data (a few of C10's configurations, among them initially recovered nodes)
+    from checks import C10
+    for c in C10.configs(tier):
+        if c['graph'] == 'P3' and (c.get('R0') or c.get('I0') == [1]) and len(c.get('I0') or []) == 1 and c.get('tmax') != 'sym':
+            out.append(dict(c, family='flag', tags=['flag'] + c['tags']))
     from checks import C03, C15
     for c in C03.configs(tier):
         if c['graph'] == 'P3' and c['mode'] in ('plain', 'weight_label') and c['spec'] in ('SIS', 'SEIR'):
@@ -468,8 +473,24 @@ def run_order(h, cfg):
     return a
 
 
+def run_flag(h, cfg):
+    """"the result is independent of whether full data is requested when its draws do not depend on that flag": the plain run, then
+    the full-data run on the same draws (C10's machinery).  If the second run asks for other draws the clause's premise is false
+    and nothing is claimed here (that the continuous-time simulators DO use the same draws is C10's statement)."""
+    from checks import C10
+    try:
+        return C10.run_path(h, cfg)
+    except Exception as e:
+        if type(e).__name__ in ('DrawMismatch', 'ReplayDiverged'):
+            h.require('full-data-flag-irrelevant', True)      # premise false: draws depend on the flag
+            return None
+        raise
+
+
 def run_path(h, cfg):
     fam = cfg['family']
+    if fam == 'flag':
+        return run_flag(h, cfg)
     if fam == 'repeat':
         return run_repeat(h, cfg)
     if fam == 'repeat-simple':
